@@ -515,6 +515,30 @@ def genesis_grid():
             "endblock dt=5000000000",
             "prep", "export", "validate", "jsonrt", "reimport"]
     out.append(("grid:genesis:inflight", ops))
+    # the chain goes on after a zero-height restart (op `restart`): the contexts come back paused and are started again,
+    # batches are issued from the imported bindings and price terms, the rebuilt ownership indexes serve an owner-wide
+    # withdrawal, a binding is disabled and refunded on the new chain, and a second restart follows
+    base = ops[:-5]
+    cont = ["restart"]
+    for k in (0, 1, 2):
+        cont.append(f"start ctx={ctx_id(0xC1B, k)} cons={C1}")
+    cont += [f"start ctx={ctx_id(0xC1B, 3)} cons={'04' * 20}",
+             "endblock dt=5000000000",
+             f"respond req={req_id(0xC1B, 2, 3, 0, 0)} prov={P1} code=200 out=valid",
+             f"respond req={req_id(0xC1B, 2, 3, 1, 0)} prov={P2} code=200 out=malformed",
+             f"respond req={req_id(0xC1B, 2, 3, 0, 3)} prov={P1} code=200 out=valid",
+             f"setwd owner={O1} addr={'05' * 20}",
+             f"withdraw owner={O1} prov=-",
+             f"bind svc=a-b prov={P2} owner={O1} dep=10000 price=3stake promT=- promV=- qos=1",
+             f"disable svc=svc prov={P2} owner={O1}",
+             f"call tx={tx(0xC1C)} idx=0 svc=svc provs={P1},{P2} cons={C1} cap=100 timeout=2 super=0 rep=0 freq=0 total=0 input=ok",
+             "endblock dt=5000000000"]
+    cont += ["endblock dt=5000000000"] * 12
+    cont += [f"withdraw owner={O1} prov={P1}", "endblock dt=1728000000000000",
+             f"refund svc=svc prov={P2} owner={O1}", "restart",
+             f"start ctx={ctx_id(0xC1B, 0)} cons={C1}", "endblock dt=5000000000", "endblock dt=5000000000",
+             "prep", "export", "validate", "jsonrt", "reimport"]
+    out.append(("grid:genesis:restart", base + cont))
     return out
 
 
